@@ -38,6 +38,20 @@ def user_reducer(m):
     return "user-reduced-module"
 
 
+class _FalsyReducer:
+    """a perfectly good reducer that happens to be falsy (an empty container-like callable): 'is an entry registered?' is a
+    question about PRESENCE, not about truthiness"""
+
+    def __bool__(self):
+        return False
+
+    def __call__(self, m):
+        return "user-reduced-module"
+
+
+falsy_reducer = _FalsyReducer()
+
+
 def env():
     if not _ENV:
         from typing import Any, Dict, List
@@ -127,6 +141,8 @@ def table_state():
         return "absent"
     if e is user_reducer:
         return "user"
+    if e is falsy_reducer:
+        return "user-falsy"
     return "library-patch"
 
 
@@ -148,10 +164,10 @@ def primitive_state():
 # ------------------------------------------------------------------------------------------------
 # operations that copy
 # ------------------------------------------------------------------------------------------------
-OPS = ["ctor_default", "ctor_nested", "ctor_module", "with_module", "with_num_item", "deepcopy_flat", "deepcopy_nested3",
+OPS = ["ctor_default", "ctor_nested", "ctor_module", "with_module", "with_num_item", "deepcopy_flat", "deepcopy_nested3", "deepcopy_outer_container",
        "deepcopy_nested_instances", "reset", "protect_direct", "user_deepcopy", "transform_nested", "caught_nested_abort",
-       "user_registers", "user_unregisters"]
-USER_OPS = {"user_registers": "user", "user_unregisters": "absent"}  # the application (un)registers its own reducer for modules
+       "user_registers", "user_unregisters", "user_registers_falsy"]
+USER_OPS = {"user_registers": "user", "user_unregisters": "absent", "user_registers_falsy": "user-falsy"}  # the application (un)registers its own reducer for modules
 
 
 def do_op(name, st):
@@ -177,6 +193,13 @@ def do_op(name, st):
         c = copy.deepcopy(v)
         assert c["a"][0]["b"][0].n is sys
         st["copy"] = c
+    elif name == "deepcopy_outer_container":
+        # the USER's own copy.deepcopy of a container that holds an instance whose attribute holds modules inside containers:
+        # the instance's __deepcopy__ is entered with a memo that already has entries
+        v = [{"k": M(n=[sys, {"m": sys}])}, M(n={"m": [sys]})]
+        c = copy.deepcopy(v)
+        assert c[0]["k"].n[0] is sys and c[0]["k"].n[1]["m"] is sys and c[1].n["m"][0] is sys
+        st["copy"] = c
     elif name == "deepcopy_nested_instances":
         v = M(n=M(n=M(n=sys)))
         c = copy.deepcopy(v)
@@ -195,6 +218,8 @@ def do_op(name, st):
         copyreg.dispatch_table[types.ModuleType] = user_reducer
     elif name == "user_unregisters":
         copyreg.dispatch_table.pop(types.ModuleType, None)
+    elif name == "user_registers_falsy":
+        copyreg.dispatch_table[types.ModuleType] = falsy_reducer
     elif name == "caught_nested_abort":
         # an inner protected copy is aborted by an exception that user code CATCHES while the outer protected copy goes on:
         # the module met later in the outer copy must still be copyable, and the table restored at the end
@@ -244,6 +269,10 @@ def run_sequence(initial, seq, fault=None):
             bad.append({"after_op": i, "op": name, "table": got, "expected": want, "raised": repr(raised)[:120] if raised else None,
                         "primitive": repr(primitive_state())})
             break
+        if want == "user-falsy" and isinstance(raised, TypeError) and "module" in str(raised):
+            # `copy` itself ignores a falsy entry (it tests truthiness), `pickle` honours it: whether modules can be copied in
+            # that configuration is the application's doing - only the TABLE is judged (it must keep the application's entry)
+            raised = None
         if raised is not None and not isinstance(raised, (G.InjectedFault, G.InjectedCallbackError)) and not (fault and fault["at"] == i):
             # (an injected fault may resurface as another exception type when it crosses a C extension frame)
             bad.append({"after_op": i, "op": name, "unexpected_exception": repr(raised)[:200]})
